@@ -39,7 +39,8 @@ RULE = ("battery = opsim runs biased to order-sensitive code (3-8 variable names
         "permuted with junk allocations; digest of the result log (float.hex of every number, exception class, "
         "structural spec and repr of every returned expression, ==/hash agreement) must be identical in all "
         "configurations.  A run is non-trivial when it evaluated or differentiated an expression with >= 2 variables "
-        "through reverse mode, an early Differential or simplification; distinct = distinct digest")
+        "through reverse mode, an early Differential or simplification; distinct = distinct digest.  Every 50th run is a "
+        "many-variable world (6-11 ordinary names, n-ary nodes with up to 12 operands)")
 
 ASSUMPTIONS = [
     "PYTHONHASHSEED controls str hashing and therefore set[str] iteration order in CPython 3.12",
